@@ -66,7 +66,7 @@ class WMSSource(MapLayer):
         if self.image_opts.transparent:
             return False
 
-        if self.opacity is not None and (0.0 < self.opacity < 0.99):
+        if self.opacity is not None and self.opacity < 0.99:
             return False
 
         if not self.coverage:
